@@ -87,6 +87,7 @@ class C13(Prop):
                              "sys.get_int_max_str_digits); beyond it parse_nvra raises ValueError (C13_parse_epoch_limit; known finding F19)",
         "C13_parse_table_partial": "the same statement with the property's alphabets and the regenerated RPM_ARCHES; same epoch limit",
         "C13_fixpoint_partial": "same epoch limit (the canonical form prints the epoch in decimal)",
+        "C13_check_nevra_partial": "same epoch limit; Rpms._check_nevra only (the rest of Rpms.add belongs to C12)",
     }
 
     def __init__(self):
@@ -233,7 +234,8 @@ class C13(Prop):
         if case["op"] == "int":
             return guarded(int, a["s"])
         s = fmt(a) if case["op"] == "parse" else a["s"]
-        out = {"parse": guarded(productmd.common.parse_nvra, s), "canon": None, "reparse": None}
+        out = {"parse": guarded(productmd.common.parse_nvra, s), "canon": None, "reparse": None,
+               "check": guarded(lambda: list(productmd.rpms.Rpms()._check_nevra(s)))}     # the key Rpms.add files the package under
         if "ok" in out["parse"]:
             d = out["parse"]["ok"]
             try:
@@ -259,7 +261,7 @@ class C13(Prop):
         s = fmt(a) if case["op"] == "parse" else a["s"]
         if len(s) > 1500 and self._tier != "thorough":
             return []          # the list-of-successes model is quadratic in Lean on very long inputs: thorough tier only
-        return [{"op": "nvra_roundtrip", "args": {"s": s}}]
+        return [{"op": "nvra_roundtrip", "args": {"s": s}}, {"op": "check_nevra", "args": {"s": s}}]
 
     def model_result(self, case, outs):
         o = outs[0]
@@ -267,7 +269,9 @@ class C13(Prop):
             self._enum[("model", checklib.key_of(case))] = o
             n = len(case["args"]["alphabet"]) ** case["args"]["n"]
             return {"strings": n, "parsed": len(o), "digest": hashlib.sha1(json.dumps(o, sort_keys=True).encode()).hexdigest()}
-        return o
+        if case["op"] == "int":
+            return o
+        return dict(o, check=outs[1])
 
     def compare(self, case, real_out, model_out):
         if case["op"] == "enum":
@@ -281,7 +285,7 @@ class C13(Prop):
                     "model": dict((s, m.get(s, {"err": "ValueError"})) for s in diff)}
         if case["op"] == "int":
             return Prop.compare(self, case, real_out, model_out)
-        r = dict((k, real_out.get(k)) for k in ("parse", "canon", "reparse"))
+        r = dict((k, real_out.get(k)) for k in ("parse", "canon", "reparse", "check"))
         return Prop.compare(self, case, r, model_out)
 
     # ------------------------------------------------------------------ the property itself, on the real output
@@ -314,6 +318,9 @@ class C13(Prop):
         f = self.check_string(s, real_out["parse"], want)
         if f:
             return f
+        if ":" in s and real_out["check"] != {"ok": [canon_str(want), want]} and len(str(want["epoch"])) <= INT_LIMIT:
+            return {"observed": {"input": s, "_check_nevra": real_out["check"]}, "required": {"key": canon_str(want), "parts": want},
+                    "kind": "canonical-key"}
         if want["arch"] == "rpm":
             return None      # "x.rpm" re-parsed loses its last component: 'rpm' is not an architecture, outside the claim
         if real_out["reparse"] != {"ok": want} or real_out.get("refmt") != real_out["canon"]:
